@@ -20,6 +20,8 @@ PATTERNS = {
     # valid JSON with a valid header, wrong container types below it (each loader fails in a different way)
     "bad-containers": {"composeinfo.json": "ci_variants_list", "images.json": "images_list", "rpms.json": "rpms_nopayload", "modules.json": "modules_str"},
     "bad-paths": {"composeinfo.json": "ci_paths_str", "images.json": "images_cell_dict", "rpms.json": "rpms_cell_list"},
+    # a zero-length file under the current name is an undecodable file, not a missing one
+    "empty-current": {"composeinfo.json": "info", "images.json": "zero", "image-manifest.json": "images2", "rpms.json": "zero", "rpm-manifest.json": "rpms2"},
     "empty": {},
 }
 
@@ -71,6 +73,7 @@ def _contents():
     out["modules"] = plain("modules", 6)
     out["garbage"] = '{"header": {"version": "1.2", "type": "productmd.images"}, "payload": {"compose": {}, "images": {}}}'
     out["notjson"] = "this is not json {"
+    out["zero"] = ""
     out["listdoc"] = '{"header": {"version": "1.2", "type": "productmd.rpms"}, "payload": []}'
     d = json.loads(ci)
     d["payload"]["variants"] = list(d["payload"]["variants"])
@@ -127,6 +130,22 @@ def impl(case):
                    "modules": productmd.modules.Modules}
         names = {"info": ["composeinfo.json"], "images": ["images.json", "image-manifest.json"],
                  "rpms": ["rpms.json", "rpm-manifest.json"], "modules": ["modules.json"]}
+        direct_state = {}
+        for acc in ["info", "images", "rpms", "modules"]:
+            # what loading the file that should be chosen (first existing name under the resolved path) gives on its own
+            st = "missing"
+            for n in names[acc]:
+                p = os.path.join(c.compose_path, "metadata", n)
+                if os.path.exists(p):
+                    try:
+                        d0 = loaders[acc]()
+                        d0.load(p)
+                        d0.dumps()
+                        st = "loads"
+                    except Exception:
+                        st = "undecodable"
+                    break
+            direct_state[acc] = st
         for acc in ["info", "images", "rpms", "modules"]:
             try:
                 o = getattr(c, acc)
@@ -150,6 +169,7 @@ def impl(case):
                     res.append(["err", "RuntimeError-then-" + type(e2).__name__, False])
             except Exception as e:
                 res.append(["err", type(e).__name__, False])
+        res.append(direct_state)
         model_in = [path[len(work):], sorted(set(p[len(work):] for p in existing) | {path[len(work):]}), listing]
         # join() results carry no doubled slash; existence is by normalised path
         return [res, model_in]
